@@ -366,3 +366,9 @@ PROPS["C10"] = Prop(
     not_covered=["nested values", "shared sub-structure", "objects beyond one key", "deep copies at depth > 1"],
     ktimeout=400,
 )
+
+
+V_COERCE = VUnit("coerce", "coerce", ["eval::eval_expr_to_bool", "eval::eval_expr_to_i64", "eval::eval_expr_to_index", "eval::eval_expr_to_str"])
+ALL_V.append(V_COERCE)
+PROPS["C17"]._v = PROPS["C17"]._v + [V_COERCE]
+PROPS["C11"]._v = PROPS["C11"]._v + [V_COERCE]
